@@ -483,6 +483,8 @@ def gen_case(rng, cfg):
         case["continue_after_reject"] = True     # the refused call is caught, the writer keeps being used
     if target == "path" and rng.random() < 0.35:
         case["first_mode"] = rng.choice(["a", "a_empty"])
+    if rng.random() < 0.35:
+        case["reuse_objects"] = True     # root / group objects are kept and only their properties replaced
     return case
 
 
@@ -642,6 +644,7 @@ def run_writer(case, workdir, tag):
     version, want_index = case["version"], case["index"] == "on"
     exps = []
     skipped = []
+    live = {}
     if case["target"] == "stream":
         buf, ibuf = io.BytesIO(), (io.BytesIO() if want_index else False)
         files = None
@@ -672,7 +675,20 @@ def run_writer(case, workdir, tag):
                     thunks, exp = prepare_call(objs)
                     sexp.append(exp)
                     try:
-                        w.write_segment([cls(*args) for (cls, args) in thunks])
+                        objects = []
+                        for (cls, args) in thunks:
+                            key = (cls.__name__,) + tuple(a for a in args[:-1] if isinstance(a, str))
+                            if case.get("reuse_objects") and cls.__name__ in ("RootObject", "GroupObject") \
+                                    and key in live:
+                                # the application keeps its RootObject / GroupObject and only replaces the
+                                # properties between segments
+                                obj = live[key]
+                                obj.properties = args[-1]
+                            else:
+                                obj = cls(*args)
+                                live[key] = obj
+                            objects.append(obj)
+                        w.write_segment(objects)
                     except Exception as e:  # the writer (or NumPy underneath it) refuses the call
                         if case.get("continue_after_reject"):
                             # the application catches the error and goes on with the same writer: a refused call
